@@ -7,7 +7,8 @@ PROP = {'title': 'Random wrappers are transparent and stay within the requested 
  'level_text': 'Every combination of the stated engines, result types, intervals/parameter sets and seeds is run on the real templates '
                'through every way of drawing (basic(param), basic(t1,t2), make_variate(make_basic), variate(gen,param), '
                'basic(d.param()), basic(convert_to(std)), d(gen,param) on a distribution storing other parameters, alone and '
-               'interleaved with d(gen), uniform_container, factories) and compared draw by draw with the equivalent std:: pair; the pseudo-random numbers are a '
+               'interleaved with d(gen), uniform_container, factories) and through histories in which a distribution is used 0..3 times and then '
+               'wrapped in a variate each possible way, copied / moved (distribution and variate), reset() or re-parameterised in mid-sequence, and compared draw by draw with the equivalent std:: pair; the pseudo-random numbers are a '
                'deterministic function of the enumerated seed, so nothing is sampled. An off-by-one in an enum/index interval or a '
                'mistranslated parameter changes the sequence for almost every seed and is also caught by the direct bound and '
                'both-ends-reached checks.',
@@ -15,7 +16,8 @@ PROP = {'title': 'Random wrappers are transparent and stay within the requested 
                '([0,256) quick / [0,4096) thorough plus 2^31-1, 2^32, 2^64-1); oracle = libstdc++ std::minstd_rand / std::mt19937 and '
                'std::uniform_int_distribution / uniform_real_distribution / normal_distribution constructed by the harness',
  'binaries': [{'name': 'C20',
-               'sources': ['harness/C20.cpp', 'harness/C20_wrapped.cpp', 'harness/C20_container.cpp'],
+               'sources': ['harness/C20.cpp', 'harness/C20_unsigned.cpp', 'harness/C20_wrapped.cpp', 'harness/C20_enum.cpp',
+                           'harness/C20_real.cpp', 'harness/C20_container.cpp'],
                'libs': [],
                'flavour': 'asan'}],
  'compile_probes': [{'name': 'basic_draw_with_param<uniform_int>', 'source': 'harness/C20_probe_draw_with_param.cpp', 'flags': []},
@@ -33,7 +35,11 @@ PROP = {'title': 'Random wrappers are transparent and stay within the requested 
          'uniform_real (32 (min,sup) pairs) and normal (16 (mean,stddev) pairs) over float/double/strong typedef, with and without '
          'reset(); three variates sharing one generator; param() setter between draws; the raw generators (1300 draws, seed and '
          'seed_seq constructors). Every distribution case also checks the param() getter (fresh, after per-call draws, after '
-         'param(set)) and Parameters::convert_to(std distribution) through convert_from(). A case is one (family<type,engine>, '
+         'param(set)) and Parameters::convert_to(std distribution) through convert_from(), and runs the histories: k=0..3 direct draws, '
+         'then variate(gen,d), make_variate(gen,d), variate(gen,d.param()) draw 6 values each and d itself continues; after 1 and 3 '
+         'draws copy-construct / copy-assign / move-construct / move-assign the distribution and a variate and continue every copy and '
+         'the original; reset() and param(q) after 1 and 3 draws; the same for uniform_container (no param()/reset() there); one fcppt '
+         'generator against one std engine through the whole history. A case is one (family<type,engine>, '
          'parameters, seed) with 64 draws through every drawing path; case '
          'descriptors read family(a, b, seed), factory(size, seed). A case is non-trivial when the distribution has more than one '
          'possible outcome (a<b, size>1, any real-valued distribution) or is the empty-container guard; "...:ends" / '
@@ -50,4 +56,9 @@ PROP = {'title': 'Random wrappers are transparent and stay within the requested 
                  'the parameter classes have no accessors: parameters read back by param() / convert_to() are observed through '
                  'convert_from() (itself checked against the numbers put in via distribution().param()) and by drawing from a '
                  'distribution rebuilt from them',
-                 'the compile probes for operator()(rng, param), param() and convert_to are kept beside the runtime checks']}
+                 'histories: the reference is the std distribution driven through the identical history (copied where fcppt copies, '
+                 'reset() / param(x) where fcppt does) -- its cached state (normal_distribution) is never hand-modelled; only for the '
+                 'route variate(gen, d.param()) the reference is a FRESH std distribution built from the used distribution\'s param(), '
+                 'because that constructor receives parameters, not a distribution',
+                 'the compile probes for operator()(rng, param), param(), convert_to and variate<uniform_container> are kept beside the '
+                 'runtime checks']}
